@@ -31,7 +31,7 @@ def RULE(tier):
             "without exception or hang); for every size whose gram count is 1..%d the grams are delivered to a fresh real receiver in "
             "every permutation, every permutation with one duplicate inserted at every position, every permutation of every strict "
             "subset (nothing may be delivered), every order-preserving merge of every permutation with the grams of a second memo "
-            "(in order%s), every such merge of every permutation of every non-empty strict subset (an incomplete first memo) with "
+            "(in order%s); requested sizes below the legal minimum (1, 2, half, minimum-45/-44/-2/-1) must be raised by the size setter to a size that rends and delivers; every such merge of every permutation of every non-empty strict subset (an incomplete first memo) with "
             "the complete second memo, and every duplicate-carrying sequence followed or preceded by the complete second memo. Oracle: inbox == multiset of (text, source, vid) of the complete memos. A case is one delivered datagram "
             "sequence; all are distinct by construction." % (K(tier), " and reversed" if tier != "quick" else ""))
 
@@ -200,9 +200,40 @@ def decode_case(case):
     return size, step, [(c // 16, c % 16) for c in case[2:]]
 
 
+def clamp_case(code, curt, mi, requested, authic):
+    """a requested gram size BELOW the legal minimum: the size setter must raise it to a size that works"""
+    ms.UUID.reset(0)
+    memo = MEMOS[mi]
+    auth = ("signed" if authic else "signed-to-plain-receiver") if code in ms.SIGNED else "unsigned"
+    enc = "b2" if curt else "b64"
+    tag = "%s:%s" % (auth, enc)
+    grams, eff, ex = ms.rend(code, curt, requested, memo, ms.ALICE)
+    lo = ms.min_size(code, curt)
+    what = "requested gram size %d (legal minimum %d) code=%s curt=%s: effective size %r" % (requested, lo, code, curt, eff)
+    if eff < lo:
+        v = [("size-clamp-too-low:%s" % tag, "%s is below the minimum (zeroth-gram overhead + 1)" % what)]
+    elif ex is not None:
+        # same keys as for a legal size given directly (the effective size is a legal size)
+        key = ("rend-hangs:%s:%s" % (auth, enc)) if isinstance(ex, ms.Hang) else "rend-raises:%s:%s:%s:%s" % (ms.site_of(ex), type(ex).__name__, auth, enc)
+        v = [(key, "%s, rend(%r) %r" % (what, memo, ex))]
+    else:
+        r = ms.receiver(authic)
+        e2 = ms.deliver(r, [(g, SRC_A) for g in grams], step=True)
+        want = (memo, SRC_A, ms.ALICE.vid if code in ms.SIGNED else None)
+        got = [tuple(x) for x in r.inbox]
+        v = [] if (e2 is None and got == [want]) else [("lost-after-clamp:%s" % tag, "%s: %d grams delivered in order, inbox %r (%r)" % (what, len(grams), got, e2))]
+    return ("clamp", eff >= lo, len(v)), v
+
+
 def run_job(job, tier, seed):
     code, curt, mi, shard, nshard, authic = job
     acc = Acc(job)
+    if shard == 0:
+        lo0 = ms.min_size(code, curt)
+        for requested in sorted({1, 2, lo0 // 2, lo0 - 45, lo0 - 44, lo0 - 2, lo0 - 1} - {0}):
+            if requested > 0:
+                obs, v = clamp_case(code, curt, mi, requested, authic)
+                acc.case(["clamp", requested], obs, v, sample=dict(memo=MEMOS[mi], code=code, curt=curt, requested=requested))
     ml = len(MEMOS[mi].encode())
     lo = ms.min_size(code, curt)
     size = lo
@@ -234,6 +265,8 @@ def run_job(job, tier, seed):
 
 def replay(job, case):
     code, curt, mi, authic = job[0], job[1], job[2], job[5]
+    if case and case[0] == "clamp":
+        return clamp_case(code, curt, mi, int(case[1]), authic)[1]
     size, step, seq = decode_case(list(case))
     ctx, viols = setup(code, curt, size, mi, authic)
     if ctx is None or not seq:
